@@ -28,15 +28,71 @@ def _new_angle(ex, name):
     return z3.Real('%s!%d' % (name, ex.fresh_cnt))
 
 
+HALF_PI_UP = z3.RealVal('1.5707963267948966193')     # slightly above pi/2
+HALF_PI_LO = z3.RealVal('1.5707963267948966192')
+PI_UP = z3.RealVal('3.1415926535897932385')
+PI_LO = z3.RealVal('3.1415926535897932384')
+PI_D = Fr(3.141592653589793)
+HALF_PI_D = Fr(1.5707963267948966)
+CONST_ANGLES = {Fr(0): (Fr(0), Fr(1)), PI_D: (Fr(0), Fr(-1)), -PI_D: (Fr(0), Fr(-1)),
+                HALF_PI_D: (Fr(1), Fr(0)), -HALF_PI_D: (Fr(-1), Fr(0))}
+
+
+def _linear(e):
+    """e as const + sum coeff*var (vars: uninterpreted real constants); None if not of that form"""
+    e = z3.simplify(e)
+    terms = {}
+    const = Fr(0)
+
+    def add(t, k):
+        nonlocal const
+        if z3.is_rational_value(t):
+            const += k * Fr(t.numerator_as_long(), t.denominator_as_long())
+            return True
+        if z3.is_const(t) and t.decl().kind() == z3.Z3_OP_UNINTERPRETED:
+            v, c0 = terms.get(t.get_id(), (t, Fr(0)))
+            terms[t.get_id()] = (t, c0 + k)
+            return True
+        kind = t.decl().kind()
+        if kind == z3.Z3_OP_ADD:
+            return all(add(c, k) for c in t.children())
+        if kind == z3.Z3_OP_SUB:
+            ch = t.children()
+            return add(ch[0], k) and all(add(c, -k) for c in ch[1:])
+        if kind == z3.Z3_OP_UMINUS:
+            return add(t.arg(0), -k)
+        if kind == z3.Z3_OP_MUL and t.num_args() == 2 and z3.is_rational_value(t.arg(0)):
+            a0 = t.arg(0)
+            return add(t.arg(1), k * Fr(a0.numerator_as_long(), a0.denominator_as_long()))
+        return False
+    if not add(e, Fr(1)):
+        return None
+    return const, [(v, k) for v, k in terms.values() if k != 0]
+
+
 def sincos_of(ex, st, a):
-    """(s, c) of an angle value"""
+    """(s, c) of an angle value; sums/differences of known angles (and the literals 0, +-pi, +-pi/2) are
+    expanded with the addition theorems"""
     if isinstance(a, float):
         raise NanAngle()
     if isinstance(a, (Fr, int)):
-        if a == 0:
-            return Fr(0), Fr(1)
+        if Fr(a) in CONST_ANGLES:
+            return CONST_ANGLES[Fr(a)]
         a = _zr(a)
     ks, kc = ('sin', a.get_id()), ('cos', a.get_id())
+    if ks not in ex.leaf_memo:
+        lin = _linear(a)
+        if lin is not None and lin[0] in CONST_ANGLES and lin[1] and all(k in (1, -1) for _, k in lin[1]) and \
+                all(('sin', v.get_id()) in ex.leaf_memo for v, _ in lin[1]) and (len(lin[1]) > 1 or lin[0] != 0 or lin[1][0][1] != 1):
+            s, c = CONST_ANGLES[lin[0]]
+            s, c = _zr(s), _zr(c)
+            for v, k in lin[1]:
+                si, ci = sincos_of(ex, st, v)
+                si, ci = _zr(si), _zr(ci)
+                if k == -1:
+                    si = -si
+                s, c = s * ci + c * si, c * ci - s * si
+            return z3.simplify(s), z3.simplify(c)
     if ks in ex.leaf_memo:
         i1, s = ex.leaf_memo[ks]
         i2, c = ex.leaf_memo[kc]
@@ -97,6 +153,7 @@ def stub_asin(ex, st, args, I):
     ex.fresh_cnt += 1
     c = z3.Real('cosasin!%d' % ex.fresh_cnt)
     st.add(z3.And(c >= 0, c * c == 1 - x * x))
+    st.add(z3.And(th >= -HALF_PI_UP, th <= HALF_PI_UP, (th > 0) == (x > 0), (th < 0) == (x < 0)))
     _register(ex, st, th, x, c)
     return th
 
@@ -134,6 +191,13 @@ def stub_atan2(ex, st, args, I):
     s = z3.Real('sinat!%d' % ex.fresh_cnt)
     c = z3.Real('cosat!%d' % ex.fresh_cnt)
     st.add(z3.And(r > 0, r * r == xz * xz + yz * yz, s * r == yz, c * r == xz))
+    # principal value in (-pi, pi]: sign from y, quadrant from x (rational enclosures of pi, pi/2)
+    st.add(z3.And(th >= -PI_UP, th <= PI_UP, z3.Implies(yz > 0, th > 0), z3.Implies(yz < 0, th < 0),
+                  z3.Implies(z3.And(yz == 0, xz > 0), th == 0), z3.Implies(z3.And(yz == 0, xz < 0), th >= PI_LO),
+                  z3.Implies(xz > 0, z3.And(th > -HALF_PI_UP, th < HALF_PI_UP)),
+                  z3.Implies(xz < 0, z3.Or(th > HALF_PI_LO, th < -HALF_PI_LO)),
+                  z3.Implies(z3.And(xz == 0, yz > 0), z3.And(th >= HALF_PI_LO, th <= HALF_PI_UP)),
+                  z3.Implies(z3.And(xz == 0, yz < 0), z3.And(th <= -HALF_PI_LO, th >= -HALF_PI_UP))))
     _register(ex, st, th, s, c)
     return th
 
@@ -154,6 +218,7 @@ def stub_atan(ex, st, args, I):
     s = z3.Real('sinat!%d' % ex.fresh_cnt)
     c = z3.Real('cosat!%d' % ex.fresh_cnt)
     st.add(z3.And(r > 0, r * r == 1 + tz * tz, s * r == tz, c * r == 1))
+    st.add(z3.And(th > -HALF_PI_UP, th < HALF_PI_UP, (th > 0) == (tz > 0), (th < 0) == (tz < 0)))
     _register(ex, st, th, s, c)
     return th
 
